@@ -9,6 +9,7 @@ plumb : field-name-level lifting: for every rule, each named field of the value 
 wrap  : the rule wrapper builds the public struct field-by-field from the body's value under the same names;
         override wrappers return the body's value unchanged; @string rules return the consumed slice (C09.pair).
 """
+from .. import lift2, plumb2
 from .. import mir, lift, plumb, ebnf
 from ..mir import short, last, strip, walk, norm, is_call
 from . import common, c20
@@ -45,6 +46,8 @@ def check_plumb(cx, chk):
             continue
         L = lift.Lifter(cx, inst)
         P = plumb.Plumber(cx, inst, L)
+        L2 = lift2.SemLifter(cx, inst)
+        P2 = plumb2.SemPlumber(cx, inst, L2)
         chk.programs.add(inst.name)
         for r in g.rules:
             if r.kind != "rule":
@@ -59,12 +62,19 @@ def check_plumb(cx, chk):
                 continue
             RF = {f.name: f for f in fs}
             names = [f.name for f in fs]
+            # the summary-based reading first; the structural one (plumb.py) as a second opinion when a function does not summarise
+            engine = "summary"
             try:
-                d = P.val_fn(impl)
+                d = P2.desc_fn(impl, lift2.P1)
             except lift.Unliftable as ex:
-                chk.violation("C02.plumb", tag + " UNLIFTABLE", "UNLIFTABLE %s: %s" % (ex.where, ex.why))
-                continue
-            want = [(n, plumb.expected_prov(g, r.body, n, RF)) for n in names]
+                first = ex
+                engine = "structure"
+                try:
+                    d = P.val_fn(impl)
+                except lift.Unliftable:
+                    chk.violation("C02.plumb", tag + " UNLIFTABLE", "UNLIFTABLE %s: %s" % (first.where, first.why))
+                    continue
+            want = [(n, plumb2.expected_prov_live(g, r.body, n, RF)) for n in names]
             got = None
             if d[0] == "unit":
                 got = []
@@ -80,8 +90,8 @@ def check_plumb(cx, chk):
                     bad = plumb.from_names_ok(pg, n)
                     if bad:
                         probs.append(bad)
-                    if plumb.strip_from(pg) != pw:
-                        probs.append("field `%s` is built as %s but the grammar says %s" % (n, plumb.show_prov(plumb.strip_from(pg))[:200], plumb.show_prov(pw)[:200]))
+                    if plumb2.norm_prov(pg) != plumb2.norm_prov(pw):
+                        probs.append("field `%s` is built as %s but the grammar says %s" % (n, plumb.show_prov(plumb.strip_from(pg))[:200], plumb.show_prov(pw)[:200] if pw is not None else "nothing"))
             if probs:
                 for pr in probs[:3]:
                     chk.violation("C02.plumb", "%s %s" % (tag, pr.split(" is ")[0][:60]),
@@ -89,7 +99,7 @@ def check_plumb(cx, chk):
                                   getattr(g, "path", None))
             else:
                 n_ok += 1
-                chk.ok("C02.plumb", tag, {"rule": tag, "fields": {n: plumb.show_prov(p)[:120] for n, p in want}})
+                chk.ok("C02.plumb", tag, {"rule": tag, "engine": engine, "fields": {n: (plumb.show_prov(p)[:120] if p is not None else None) for n, p in want}})
     chk.disagreements_checked += n_rules
     chk.floor("C02.plumb", "rules whose plumbing equals the grammar's", n_ok, 1134)
 
